@@ -21,9 +21,9 @@ import (
 )
 
 type execOpts struct {
-	digest  bool // C15: dump before/after read-only and no-op calls
-	bufMode bool // C13: []byte keys are sub-slices of sentinel-filled reused buffers
-	gcEvery int  // C18: runtime.GC() every n commands (0 = never)
+	digest   bool // C15: dump before/after read-only and no-op calls
+	bufMode  bool // C13: []byte keys are sub-slices of sentinel-filled reused buffers
+	gcEvery  int  // C18: runtime.GC() every n commands (0 = never)
 	noOracle bool
 }
 
@@ -194,12 +194,12 @@ func stripValues(d string) string { return leafValRe.ReplaceAllString(d, "L($1,$
 // ---- interpreter --------------------------------------------------------------------
 
 type session struct {
-	trees   map[string]treeDrv
-	oracles map[string]*oracle
-	nodes   map[string]*art.VerifNode
-	opts    execOpts
-	side    []sideViolation
-	panics  []string
+	trees      map[string]treeDrv
+	oracles    map[string]*oracle
+	nodes      map[string]*art.VerifNode
+	opts       execOpts
+	side       []sideViolation
+	panics     []string
 	wasPresent bool // the key of the current Insert was stored before the call (per the oracle)
 }
 
